@@ -44,6 +44,9 @@ static std::map<FILE*, int> g_files;
 static FaultKind g_fault = FaultKind::NONE;
 static int64_t g_fault_countdown = -1;
 static bool g_fault_fired = false;
+static pid_t g_fault_tid = 0; //!< faults only hit operations of the thread that armed them (a library's background thread, e.g.
+                              //!< LevelDB's compaction thread, runs on real time: letting it consume the countdown made outcomes
+                              //!< depend on timing)
 
 struct Spin {
     std::atomic_flag f = ATOMIC_FLAG_INIT;
@@ -107,6 +110,7 @@ static thread_local int t_in_fwrite = 0;
 static bool FaultNow(char cls, int& err, size_t* short_len = nullptr, const std::string* rel = nullptr, size_t n = 0)
 {
     if (g_fault == FaultKind::NONE || g_fault_fired) return false;
+    if (gettid() != g_fault_tid) return false;
     if (cls == 'w' && rel && t_in_fwrite && !g_exempt_substr.empty() && rel->find(g_exempt_substr) != std::string::npos) return false;
     bool match = (cls == 'w' && (g_fault == FaultKind::ENOSPC_WRITE || g_fault == FaultKind::EIO_WRITE || g_fault == FaultKind::SHORT_WRITE)) ||
                  (cls == 's' && g_fault == FaultKind::EIO_SYNC) || (cls == 'f' && g_fault == FaultKind::ENOSPC_FALLOC);
@@ -241,7 +245,7 @@ bool Armed() { return g_armed; }
 size_t LogSize() { Guard g; return g_log.size(); }
 const std::vector<LogOp>& Log() { return g_log; }
 uint64_t OpsFromOtherThreads() { return g_other_thread_ops; }
-void SetFault(FaultKind kind, uint64_t after_ops) { Guard g; g_fault = kind; g_fault_countdown = (int64_t)after_ops; g_fault_fired = false; }
+void SetFault(FaultKind kind, uint64_t after_ops) { Guard g; g_fault_tid = gettid(); g_fault = kind; g_fault_countdown = (int64_t)after_ops; g_fault_fired = false; }
 bool FaultFired() { return g_fault_fired; }
 void SetFwriteFaultExempt(const std::string& path_substr) { Guard g; g_exempt_substr = path_substr; }
 void ClearFault() { Guard g; g_fault = FaultKind::NONE; g_fault_fired = false; }
